@@ -93,7 +93,7 @@ class Lattice(object):
                      ('Lock', 'object'), ('Event', 'object'), ('Thread', 'object'), ('Queue', 'object'), ('Process', 'object'), ('Random', 'object'),
                      ('threadlocal', 'object'), ('datetime', 'object'), ('timedelta', 'object'), ('module', 'object'), ('str', 'object'),
                      ('int', 'object'), ('float', 'object'), ('bool', 'int'), ('bytes', 'object'), ('NoneType', 'object'), ('type', 'object'),
-                     ('set', 'object'), ('S3Object', 'object'), ('ParseResult', 'object'), ('Parser', 'object')]:
+                     ('set', 'object'), ('frozenset', 'object'), ('S3Object', 'object'), ('ParseResult', 'object'), ('Parser', 'object')]:
             self.add(n, [b])
 
     def add(self, name, bases):
